@@ -9,10 +9,11 @@
 (* src/plumpy/loaders.py (DefaultObjectLoader, get/set_object_loader).                             *)
 (*                                                                                                 *)
 (* One instance is a short SESSION: (a prior bundle loaded), (another class of the chain used), the  *)
-(* object under test saved, its saved state tampered, the original mutated, the state loaded and    *)
-(* saved again.  Every load of a session goes through the load context the CALLER supplies: None,   *)
-(* or ONE LoadSaveContext object handed to all of them; what a load leaves in that object is part   *)
-(* of the result of the load (`ctx`), and the next load of the session starts from it.              *)
+(* object under test saved, its saved state tampered (or the module that holds the classes changed  *)
+(* under it: a class removed), the original mutated, the state loaded and saved again.  Every load  *)
+(* of a session goes through the load context the CALLER supplies: None, or ONE LoadSaveContext     *)
+(* object handed to all of them; what a load leaves in that object is part of the result of the     *)
+(* load (`ctx`), and the next load of the session starts from it.                                   *)
 (*                                                                                                 *)
 (* Two formulations.                                                                               *)
 (*   OPERATIONAL: python objects live in a heap (a sequence of uniform entries: objects, futures,  *)
@@ -53,9 +54,12 @@ CONSTANTS
 VARIABLES phase, inst, out
 vars == <<phase, inst, out>>
 
-AllKinds    == {"value", "none", "method", "tuple", "sav1", "sav2", "futP", "futR", "futT", "futE", "futC"}
+\* future kinds = state x what a FINISHED future was resolved with: futP pending, futC cancelled, futE failed, and resolved with a
+\* mutable value (futR), a tuple holding one (futT), None - an action that returns nothing - (futN), a falsy immutable value, the
+\* empty string (futZ)
+AllKinds    == {"value", "none", "method", "tuple", "sav1", "sav2", "futP", "futR", "futT", "futE", "futC", "futN", "futZ"}
 AllLoaders  == {"default", "global", "persave", "ctxboth", "peralias"}
-AllUnknowns == {"noattr", "malformed", "nocls", "nometa", "nested", "noldr", "badldr"}
+AllUnknowns == {"noattr", "malformed", "nocls", "nometa", "nested", "noldr", "badldr", "gone", "ldrgone"}
 ASSUME Names \subseteq {"a", "b", "c"} /\ Kinds \subseteq AllKinds /\ Loaders \subseteq AllLoaders /\ Unknowns \subseteq AllUnknowns
 ASSUME Ways \subseteq {"deco", "hook"} /\ Orders \subseteq {"parent", "child"}
 ASSUME Ctxs \subseteq {"shared"} /\ Priors \subseteq {"plain", "custom"}
@@ -109,9 +113,9 @@ Lookup(own, i) == IF i = 0 THEN 0 ELSE IF own[i] # 0 THEN own[i] ELSE Lookup(own
 AutoPersistCM(st, i, members) ==
   LET cur  == Lookup(st.own, i)
       mine == st.own[i] # 0
-      st1  == IF cur = 0 THEN [own |-> [st.own EXCEPT ![i] = Len(st.sets) + 1], sets |-> Append(st.sets, {})]
+      st1  == IF cur = 0 THEN [st EXCEPT !.own = [st.own EXCEPT ![i] = Len(st.sets) + 1], !.sets = Append(st.sets, {})]
               ELSE IF ~mine /\ "FH1" \in Fixes                         \* repaired: a class gets its own copy first
-                   THEN [own |-> [st.own EXCEPT ![i] = Len(st.sets) + 1], sets |-> Append(st.sets, st.sets[cur])]
+                   THEN [st EXCEPT !.own = [st.own EXCEPT ![i] = Len(st.sets) + 1], !.sets = Append(st.sets, st.sets[cur])]
               ELSE st
       tgt  == Lookup(st1.own, i)
       leak == st1.own[i] = 0 /\ ~(members \subseteq st1.sets[tgt])
@@ -120,15 +124,16 @@ AutoPersistCM(st, i, members) ==
 Decorate(st, i, members) ==                \* auto_persist(*members)(cls_i), the decorator
   LET cur == Lookup(st.own, i)
       new == IF cur = 0 THEN {} ELSE st.sets[cur]        \* set()  |  set(savable._auto_persist): a NEW set object
-      st1 == [own |-> [st.own EXCEPT ![i] = Len(st.sets) + 1], sets |-> Append(st.sets, new)]
+      st1 == [st EXCEPT !.own = [st.own EXCEPT ![i] = Len(st.sets) + 1], !.sets = Append(st.sets, new)]
   IN AutoPersistCM(st1, i, members).st                   \* savable.auto_persist(*members)
 
 RECURSIVE DefineClasses(_, _, _)
 DefineClasses(ch, i, st) ==
   IF i > Len(ch) THEN st
   ELSE DefineClasses(ch, i + 1, IF ch[i].way = "deco" THEN Decorate(st, i, ch[i].names) ELSE st)
-\* the class attributes once the chain is defined (decorators run at definition time, hooks at first use)
-ClassStore(ch) == DefineClasses(ch, 1, [own |-> [j \in 1..Len(ch) |-> 0], sets |-> <<>>])
+\* the class attributes once the chain is defined (decorators run at definition time, hooks at first use); `gone` = the names that
+\* were REMOVED from the module since (the plugin that provided them was uninstalled while the interpreter keeps running)
+ClassStore(ch) == DefineClasses(ch, 1, [own |-> [j \in 1..Len(ch) |-> 0], sets |-> <<>>, gone |-> {}])
 
 \* self.persist() for an instance of class i: the hook of the nearest class that has one; each hook is
 \*     @classmethod
@@ -177,7 +182,9 @@ Identify(l, cls) == <<Scheme(l), IF l = "A" THEN Legacy(cls) ELSE cls>>      \* 
 LoaderClass(l) == CASE l = "C" -> "CustomLoader" [] l = "A" -> "AliasLoader" [] OTHER -> "DefaultObjectLoader"
 LoaderClasses == {"CustomLoader", "AliasLoader"}
 InstanceOf(c) == CASE c = "CustomLoader" -> "C" [] c = "AliasLoader" -> "A" [] OTHER -> "none"      \* cls(): only loader classes are ever recorded
-Loadable(ct) == ct \cup {"SavableFuture"} \cup LoaderClasses
+\* what the module holds NOW: an object loader keeps no memory, every load_object looks the name up at the moment of the call
+ModuleNow(ch, st) == (ClassNames(ch) \cup LoaderClasses) \ st.gone
+Loadable(ct) == ct \cup {"SavableFuture"}
 LoadObject(l, ident, ct) ==                                    \* ObjectLoader.load_object -> [cls, exc]
   IF l \notin {"D", "C", "A"} THEN [cls |-> "-", exc |-> "TypeError"]      \* unbound method called on the class
   ELSE IF l = "A" /\ ident[1] = "D" /\ ident[2] \in StandIns                \* a legacy name: the class that carries it today
@@ -206,6 +213,9 @@ NewFut(h, kind, path) ==                   \* SavableFuture(), then set_result /
      THEN [h |-> Cell(Append(h, [f EXCEPT !.res = Plain(id + 1)]), "v:" \o path \o ".result"), id |-> id]
      ELSE IF kind = "futT"                                   \* the result is a tuple holding a mutable cell
      THEN [h |-> Cell(Append(h, [f EXCEPT !.res = Tup(id + 1)]), "v:" \o path \o ".result[0]"), id |-> id]
+     ELSE IF kind = "futZ"                                   \* set_result(''): resolved with a falsy immutable value
+     THEN [h |-> Append(h, [f EXCEPT !.res = Str("")]), id |-> id]
+     \* futN: set_result(None) - FINISHED, no exception, _result None (as _result is for every future that holds no result)
      ELSE [h |-> Append(h, f), id |-> id]
 
 NewN2(h, path) ==                          \* N2(): self.x = <plain>; self.s = N1(); self.f = <future with a result>
@@ -325,7 +335,8 @@ LoadMembers(h, st, nid, sid, names, ldr, G, ch, dev) ==
             ELSE LoadMembers([n.h EXCEPT ![nid].attrs[m] = Ref(n.r)], n.st, nid, sid, rest, ldr, G, ch, dev \cup n.dev)
           ELSE LoadMembers([h EXCEPT ![nid].attrs[m] = val], st, nid, sid, rest, ldr, G, ch, dev)     \* the saved value itself
 
-\* SavableFuture.recreate_from
+\* SavableFuture.recreate_from: which of set_exception / set_result is called is decided by the saved STATE and by the PRESENCE of the
+\* 'exception' key (try ... except KeyError), never by the saved value: a future resolved with None or '' is resolved again
 RecreateFuture(h, st, sid, ldr, dev) ==
   LET d  == h[sid]
       id == Len(h) + 1
@@ -341,7 +352,7 @@ RecreateFuture(h, st, sid, ldr, dev) ==
 \* ctx  = the loader attribute of the caller's context object after the call (see EnsureLoader)
 LoadAny(h, st, sid, lctx, G, ch) ==
   LET d  == h[sid]
-      ct == ClassNames(ch)
+      ct == ModuleNow(ch, st)
       en == EnsureLoader(d, lctx, G, ct)
   IN WithCtx(
      IF en.exc # "-" THEN LR(h, st, 0, en.exc, en.dev, "none")
@@ -351,7 +362,7 @@ LoadAny(h, st, sid, lctx, G, ch) ==
           ELSE LET c == LoadObject(en.ldr, d.meta.cls, ct) IN   \* load_context.loader.load_object(class_name)
                IF c.exc # "-" THEN LR(h1, st, 0, c.exc, en.dev, en.ldr)
                ELSE IF c.cls = "SavableFuture" THEN RecreateFuture(h1, st, sid, en.ldr, en.dev)
-               ELSE IF c.cls \notin ct THEN LR(h1, st, 0, "AttributeError", en.dev, en.ldr)
+               ELSE IF c.cls \in LoaderClasses THEN LR(h1, st, 0, "AttributeError", en.dev, en.ldr)      \* not a Savable
                ELSE \* Savable.recreate_from: cls.__new__(cls); load_instance_state: self._ensure_persist_configured();
                     \* load_members(self._auto_persist, ...): the members get the EXTENDED context (a copy that carries en.ldr)
                     LET nid == Len(h1) + 1
@@ -431,6 +442,12 @@ Tamper(h, sid, how) ==
                                IF i \in {h[sid].attrs[n].p : n \in {m \in AllNames : h[sid].attrs[m].k = "ref"}}
                                THEN [h[i] EXCEPT !.meta.cls = <<@[1], "Nope">>] ELSE h[i]]
     [] OTHER -> h
+\* ... or the environment changes under a saved state that stays as it is: between the save and the load the class of the object
+\* under test ("gone"), or the class of the loader the state records ("ldrgone"), is removed from the module
+Unplug(st, i) ==
+  CASE i.unk = "gone"    -> [st EXCEPT !.gone = {ChainClass(i.t)}]
+    [] i.unk = "ldrgone" -> [st EXCEPT !.gone = {LoaderClass(SaveCtx(i.ldr))}]
+    [] OTHER -> st
 
 (* ---- DECLARATIVE ------------------------------------------------------------------------------ *)
 \* the object one must get back: the declared members, as they were when save() was called
@@ -473,10 +490,11 @@ Run(i) ==
       ht   == Tamper(s1.h, s1.r, i.unk)
       hm   == Mutate(ht, orig)
       none == [h |-> s1.h, st |-> s1.st, r |-> 0, exc |-> "NotSaved", dev |-> {}, used |-> "none", ctx |-> cx2]
-      ld   == IF s1.exc # "-" THEN none ELSE LoadAny(hm, s1.st, s1.r, cx2, G, ch)      \* after the original moved on
-      ld0  == IF s1.exc # "-" THEN none ELSE LoadAny(ht, s1.st, s1.r, cx2, G, ch)      \* had it not moved on
+      stu  == Unplug(s1.st, i)
+      ld   == IF s1.exc # "-" THEN none ELSE LoadAny(hm, stu, s1.r, cx2, G, ch)        \* after the original moved on
+      ld0  == IF s1.exc # "-" THEN none ELSE LoadAny(ht, stu, s1.r, cx2, G, ch)        \* had it not moved on
       \* had nothing gone through the context before (the same evaluation when the context is as the caller made it)
-      ldF  == IF s1.exc # "-" THEN none ELSE IF cx2 = cx0 THEN ld ELSE LoadAny(hm, s1.st, s1.r, cx0, G, ch)
+      ldF  == IF s1.exc # "-" THEN none ELSE IF cx2 = cx0 THEN ld ELSE LoadAny(hm, stu, s1.r, cx0, G, ch)
       s2   == SaveAny(ld.h, ld.st, ld.r, sctx, G, ch)
       stEnd == IF s1.exc # "-" THEN s1.st ELSE IF ld.exc # "-" THEN ld.st ELSE s2.st
       facts  == IF ld.exc = "-" THEN Facts(ld.h, ld.r, "o", orig, Present(ld.h[ld.r])) ELSE {}
@@ -527,12 +545,13 @@ Chains == UNION {[1..n -> Decls] : n \in 1..MaxChain}
 \* names that are not persisted are plain attributes of the original
 KindsFor(ch, t) == {k \in [Names -> Kinds] : \A n \in Names \ PersistedDecl(ch, t) : k[n] = "value"}
 HasNested(ch, t, k) == \E n \in PersistedDecl(ch, t) : k[n] \notin {"value", "none", "method", "tuple"}
-\* unknown class names are tried on the one-class chain that persists every name; an unknown RECORDED LOADER where a loader
+\* unknown class names (rewritten in the state, or removed from the module) are tried on the one-class chain that persists every
+\* name; an unknown RECORDED LOADER (rewritten, or removed from the module) where a loader
 \* is recorded and the load context names none (elsewhere the recorded loader is not what resolves the class)
 LoaderMatters(l) == SaveCtx(l) # "none" /\ LoadCtx(l) = "none"
 UnknownsFor(ch, t, k, l) == {"none"} \cup (IF Len(ch) = 1 /\ ch[1].way = "deco" /\ ch[1].names = Names
                                             THEN {u \in Unknowns : /\ u = "nested" => HasNested(ch, t, k)
-                                                                   /\ u \in {"noldr", "badldr"} => LoaderMatters(l)} ELSE {})
+                                                                   /\ u \in {"noldr", "badldr", "ldrgone"} => LoaderMatters(l)} ELSE {})
 \* which other class of the chain is used first (0 = none)
 FirstsFor(ch, t) == {0} \cup {j \in 1..Len(ch) : (j < t /\ "parent" \in Orders) \/ (j > t /\ "child" \in Orders)}
 \* how the load context is supplied: as the loader configuration says (None, or a context that names a loader), or - where
